@@ -15,6 +15,9 @@ BUILT = {
  "C14": ("exploration", "runtime monitor: LineEvent hook on real runs over the exhaustive qualifier x value-history table, compared with a decision function transcribed from docs/assignment.md",
          "Every one of the 256 qualifier subsets x 3-line value histories x rest-matches is executed by the real interpreter and observed per line (value of x, match). Exhaustive for the property quantifier.",
          "decision function (30 lines) transcribed from the property statement; admissible-vote sets where the doc table and priority list disagree (A2)", "DESIGN.md#c14"),
+ "C01": ("exploration", "runtime monitor: differential trace checking - LineEvent hook on the real interpreter vs an executable reference evaluator written from the docs, over generated programs x files x logic modes",
+         "Tens of thousands of generated (program, file, mode) cases per run; every scanned line's match decision and the returned lines are compared with the reference evaluator's. Undefined corners are dropped and counted, known finding F1 is attributed by exact emulation. Held = no unexplained divergence on the decided cases.",
+         "vfy/model.py (reference semantics from README/docs) is the oracle; generator exclusions of DESIGN.md A.3 keep the meaning defined", "DESIGN.md#c01"),
  "C02": ("exploration", "runtime monitor: LineEvent hook + icontract postconditions on Scanner.includes/is_last over an exhaustive enumeration of scan strings x blank layouts",
          "Exhaustive (within the tier's bounds) end-to-end runs; every run is observed by the line hook and the scanner contracts and compared with the denotation of the scan string. Held = no divergence on any enumerated (scan, layout) pair.",
          "denotation function of the scan AST written from README 'Scanning'; csv.reader's notion of a blank record", "DESIGN.md#c02"),
